@@ -1204,6 +1204,18 @@ where
             .map_err(Error::Io)
     }
 
+    /// Writes blocks through a buffered writer and reports any
+    /// error from flushing it, which dropping it would discard
+    fn write_blocks_flushed<W: std::io::Write>(
+        mut w: BufWriter<W>,
+        blocks: BlockList,
+    ) -> Result<(), Error> {
+        use std::io::Write;
+
+        write_blocks(&mut w, blocks)?;
+        w.flush().map_err(Error::Io)
+    }
+
     /// Returns Ok if successful
     fn grow_padding(blocks: &mut BlockList, more_bytes: u64) -> Result<(), ()> {
         // if a block set has more than one PADDING, we'll try the first
@@ -1263,7 +1275,7 @@ where
             match grow_padding(&mut blocks, old_size - new_size) {
                 Ok(()) => {
                     original.seek(start).map_err(Error::Io)?;
-                    write_blocks(BufWriter::new(original), blocks)
+                    write_blocks_flushed(BufWriter::new(original), blocks)
                         .map(|()| false)
                         .map_err(E::from)
                 }
@@ -1275,7 +1287,7 @@ where
         Ordering::Equal => {
             // blocks are the same size, so no need to adjust padding
             original.seek(start).map_err(Error::Io)?;
-            write_blocks(BufWriter::new(original), blocks)
+            write_blocks_flushed(BufWriter::new(original), blocks)
                 .map(|()| false)
                 .map_err(E::from)
         }
@@ -1285,7 +1297,7 @@ where
             match shrink_padding(&mut blocks, new_size - old_size) {
                 Ok(()) => {
                     original.seek(start).map_err(Error::Io)?;
-                    write_blocks(BufWriter::new(original), blocks)
+                    write_blocks_flushed(BufWriter::new(original), blocks)
                         .map(|()| false)
                         .map_err(E::from)
                 }
